@@ -136,7 +136,12 @@ def run(ctx):
         raise AnalysisError("calculate_stress_tensor: store into principal_stress not found")
     x = ps[0]
     lp = x.loops()
-    r2, c2 = ("bv", lp[0][1]), ("bv", lp[1][1])
+    if len(lp) != 2:
+        raise AnalysisError("calculate_stress_tensor: the principal-stress store is not inside the (row, column) double loop")
+    ro_r, ro_c = rules.roles(lp[0]), rules.roles(lp[1])
+    if ro_r.pos is None or ro_c.pos is None:
+        raise AnalysisError("calculate_stress_tensor: the double loop does not run over grid positions - re-bind the anchor")
+    r2, c2 = ro_r.pos, ro_c.pos
     val = x.value
     ok_eig = val[0] == "call" and val[1] == "numpy.linalg.eig" and val[2][0][0] == "idx" and val[2][0][1] == T.idx(res, T.num(0))
     rkey = val[2][0][2] if ok_eig else None
@@ -145,9 +150,10 @@ def run(ctx):
               "stress_tensor[0][key(row, column)] with the same key construction",
               f"reader key {T.show(T.alpha(rkey))[:120] if rkey else '?'} differs from the writer's {T.show(T.alpha(wkey))[:120]}")
     ctx.clause("principal stresses are the eigen-decomposition of these tensors at the grid centres")
-    want_key = T.seq((T.idx(T.idx(T.idx(res, T.num(1)), T.num(0)), r2), T.idx(T.idx(T.idx(res, T.num(1)), T.num(1)), c2)))
-    ok_rng = lp[0][2] == T.call("range", (T.call("len", (T.idx(T.idx(res, T.num(1)), T.num(0)),)),)) and \
-        lp[1][2] == T.call("range", (T.call("len", (T.idx(T.idx(res, T.num(1)), T.num(1)),)),))
+    # the loops enumerate the centre lists the writer returned; the key is the pair of centres at the loop positions
+    cx, cy = T.idx(T.idx(res, T.num(1)), T.num(0)), T.idx(T.idx(res, T.num(1)), T.num(1))
+    want_key = T.seq((ro_r.elem if ro_r.kind == "enumerate" else T.idx(cx, r2), ro_c.elem if ro_c.kind == "enumerate" else T.idx(cy, c2)))
+    ok_rng = ro_r.base == cx and ro_c.base == cy
     ctx.check(x.key == want_key and ok_rng, "ALIGN", f"{g.qualname} / ALIGN / principal_stress[(centre_x[row], centre_y[column])] = eig(tensor(row, column))", ctx.where(g, x.node),
               "keyed by the reported grid centres of the same (row, column)", f"principal stress stored under {T.show(T.alpha(x.key))[:160]}")
     ps_reset = [y for y in sg.stores("principal_stress") if y.base == SELF and not y.sub]
